@@ -6,7 +6,8 @@ from pv import *
 import pancore
 
 PRELUDE = '''boom := {|i| raise Err.new("E" + i.S)}
-beh := {|k, i| return nil if k == 'n; return boom(i) if k == 'r; i * 10}
+stop := {|i| raise StopIterErr.new("E" + i.S)}
+beh := {|k, i| return nil if k == 'n; return boom(i) if k == 'r; return stop(i) if k == 's; i * 10}
 mk := {|i, B| {i: i, m: {|self| ("c" + self.i.S).p; beh(B[self.i], self.i)}}}
 '''
 
@@ -40,7 +41,7 @@ def oracle_list(add, beh, elems, carg):
         if add == "&" and e == "nil":
             continue                        # lonely: nil receiver is skipped, yields nil (dropped)
         trace.append("c%d" % n)
-        if b == "r":
+        if b in "rs":
             if add == "~":
                 out.append(e)
                 continue
@@ -61,7 +62,7 @@ def oracle_scalar(add, b, recv_repr, n):
     if add == "&" and recv_repr == "nil":
         return [], ("val", "nil")
     trace = ["c%d" % n]
-    if b == "r":
+    if b in "rs":
         return trace, (("val", recv_repr) if add == "~" else ("err", "E%d" % n))
     if b == "n":
         return trace, ("val", recv_repr if add == "~" else "nil")
@@ -76,7 +77,7 @@ def oracle_reduce(add, beh, init):
     for i, b in enumerate(beh):
         n = i + 1
         trace.append("c%d" % n)
-        if b == "r":
+        if b in "rs":
             if add == "~":
                 continue
             return trace, ("err", "E%d" % n)
@@ -91,7 +92,9 @@ def oracle_reduce(add, beh, init):
 
 def gen(chk):
     cases = []  # (family, program, trace, outcome)
-    vecs = list(itertools.product("vnr", repeat=3))
+    # 's' raises an error of kind StopIterErr (the kind the chain loops themselves watch for on the ITERATOR): from the callee
+    # it is a failure like any other
+    vecs = list(itertools.product("vnr", repeat=3)) + [tuple("svv"), tuple("vsv"), tuple("vvs"), tuple("nsv"), tuple("vsr")]
     # list chains: literal and variable form over every receiver kind
     for kind, (recv, idx, elems) in RECVS.items():
         for add in ADDS:
@@ -118,6 +121,12 @@ def gen(chk):
                 # `~@` substitutes the element (an object): compare by the `i` of each result instead of printing closures
                 cases.append(("three/%s@/%s" % (add, form), pre + body + "\nr=@{|e| e.i if e.proto == Obj && e.keys.has?('i) else e}", tr,
                               (oc[0], oc[1].replace("<o1>", "1").replace("<o2>", "2").replace("<o3>", "3"))))
+                # the same chain written on a continuation line, after a trailing comment and after a comment line
+                if beh in (tuple("vvv"), tuple("vnr"), tuple("nvv"), tuple("rvv")):
+                    for li, lay in enumerate((" # note\n  |", "\n  # note\n  |", "\n  |")):
+                        ml = body.replace("os%s@" % add, "os%s%s@" % (lay, add))
+                        cases.append(("layout/%s@/%s" % (add, form), pre + ml + "\nr=@{|e| e.i if e.proto == Obj && e.keys.has?('i) else e}", tr,
+                                      (oc[0], oc[1].replace("<o1>", "1").replace("<o2>", "2").replace("<o3>", "3"))))
     # elements that lack the property (property form): NoPropErr is a failed result
     for add in ADDS:
         pre = "B := %{1: 'v, 2: 'v, 3: 'v}\nos := [mk(1, B), {i: 2}, mk(3, B)]\n"
@@ -144,7 +153,7 @@ def gen(chk):
                     cases.append(("digest-empty/%s@/%s/%s" % (add, form, why), body + "\nr", [], ("val", exp_empty)))
     # scalar chains: three forms on one object, and literal form on nil / value receivers
     for add in ADDS:
-        for b in "vnr":
+        for b in "vnrs":
             B = bmap([b, b, b])
             tr, oc = oracle_scalar(add, b, "<o>", 1)
             pre = "B := %s\no := mk(1, B)\n" % B
@@ -189,7 +198,7 @@ def main(chk):
         imp = r["impl"]
         eout = "".join(t + "\n" for t in tr)
         if oc[0] == "err":
-            good = imp["kind"] == "error" and imp.get("errk") in ("Err", "NoPropErr") and imp.get("errmsg") == oc[1] and imp.get("out") == eout
+            good = imp["kind"] == "error" and imp.get("errk") in ("Err", "NoPropErr", "StopIterErr") and imp.get("errmsg") == oc[1] and imp.get("out") == eout
         else:
             good = imp["kind"] == "value" and imp.get("repr") == oc[1] and imp.get("out") == eout
         if not good:
